@@ -51,7 +51,7 @@ ASSUMPTIONS = [
 N_SLOTS = 3
 
 
-EXPECTED_PROBES = ['flag_switched_while_the_model_holds_a_matrix', 'matrix_assigned_to_a_loaded_model', 'model_constructed_from_a_distance_file', 'distance_file_of_the_model_rewritten', 'loaded_model_poked_and_compared', 'distance_fn_replaced_through_setter', 'receiver_constructed_with_its_own_distance_file', 'subgraph_poked_between_saves', 'labels_propagated_between_saves', 'non_float64_training_data', 'load_checked', 'load_of_save_made_after_a_failed_save', 'loaded_into_differently_constructed_model', 'matrix_pairs_run', 'original_refitted_after_save', 'original_used_between_saves', 'path_overwritten', 'prediction_raises_consistently', 'refit_raised', 'restart_checked_', 'save_raised_and_original_compared', 'save_returned_normally_although_fault_fired', 'scheduled_fault_did_not_fire', 'second_generation_load', 'successful_save_after_failed_save']
+EXPECTED_PROBES = ['original_compared_with_its_saved_copy', 'flag_switched_while_the_model_holds_a_matrix', 'matrix_assigned_to_a_loaded_model', 'model_constructed_from_a_distance_file', 'distance_file_of_the_model_rewritten', 'loaded_model_poked_and_compared', 'distance_fn_replaced_through_setter', 'receiver_constructed_with_its_own_distance_file', 'subgraph_poked_between_saves', 'labels_propagated_between_saves', 'non_float64_training_data', 'load_checked', 'load_of_save_made_after_a_failed_save', 'loaded_into_differently_constructed_model', 'matrix_pairs_run', 'original_refitted_after_save', 'original_used_between_saves', 'path_overwritten', 'prediction_raises_consistently', 'refit_raised', 'restart_checked_', 'save_raised_and_original_compared', 'save_returned_normally_although_fault_fired', 'scheduled_fault_did_not_fire', 'second_generation_load', 'successful_save_after_failed_save']
 
 SLOW_ARMS = ("restart", "matrix")
 
@@ -142,8 +142,11 @@ def gen_case(rng, arm, tier, k=0):
                 ops.append(["rewrite_dfile"])  # the distance file the model was built from changes on disk
             elif gens and rng.random() < 0.3:
                 ops.append(["poke_loaded", rng.randrange(gens), rng.choice(("create_arcs", "destroy_arcs", "calculate_pdf", "set_pre", "set_pre")), rng.randint(1, 4)])
-            elif base["kind"] in ("unsup", "unsup_prop") and rng.random() < 0.4:
+            elif base["kind"] in ("unsup", "unsup_prop") and rng.random() < 0.5:
+                ops.append(["use", [rng.randrange(len(base["pool"])) for _ in range(rng.randint(1, 3))]])
                 ops.append(["propagate"])
+                ops.append(["save", rng.randrange(N_SLOTS), None])
+                saved.add(ops[-1][1])
             else:
                 ops.append(["use", [rng.randrange(len(base["pool"])) for _ in range(rng.randint(1, 4))]])
         elif r < 0.90 and gens:
@@ -411,6 +414,19 @@ def run_case(case):
                         **facts,
                     )
                 )
+            if completed and who == "original":
+                # "predictions of the loaded model equal those of the original": the original itself
+                # is asked too - a memo kept outside the object would make it differ from its own copy
+                exp_o = snap.expected(case, rows)
+                if exp_o is not None:
+                    try:
+                        got_o = predictions(obj, case, rows)
+                    except Exception as exc:  # noqa: BLE001
+                        lib_call("predict on the original after save", _reraise, exc)
+                    if got_o != exp_o:
+                        diff = [i for i in range(len(exp_o)) if got_o[i] != exp_o[i]]
+                        raise Stop(violation("original-differs-from-its-saved-copy", "after save the original predicts %s on pool samples %s but a copy of it taken at save time (what the file holds) predicts %s" % ([got_o[i] for i in diff[:5]], diff[:5], [exp_o[i] for i in diff[:5]]), **facts))
+                    bump(out.probes, "original_compared_with_its_saved_copy")
             if completed:
                 files[slot] = snap
                 if pending_fault:
